@@ -15,7 +15,8 @@ ASSUMPTIONS = [
   "correspondence inputs are dyadic rationals with few bits, so max, min, midpoint and value - midpoint are exact in double arithmetic; "
   "quantities that pass through 0.2/(max-min), 1/max|v|, the mean or the constants 0.1, 1e-10, 1e-6 are compared to 1e-12 relative",
   "values are finite and the failure mask has the length of the value array (NumPy boolean indexing raises otherwise); a threshold "
-  "None is NumPy NaN and means 'no threshold'",
+  "None is NumPy NaN and means 'no threshold'; through the view the rows of FAILED observations may store anything (sentinels, +-inf, NaN): "
+  "they are never read (C12_failed_values_ignored, C12_multi_failed_values_ignored, C12_view_failed_values_ignored)",
   "numpy.fmax on finite data is max; numpy.min/max/mean are the mathematical min/max/mean",
 ]
 TRUSTED = ["tools/props/C12.py case generator, minimal-View builder and the Q-literal printer", "Model/MidpointCorr.v check function"]
@@ -44,7 +45,7 @@ def make_view(vals, vars_, fails, objs, opt_ix, con_ix, thr):
                    objectives=list(objs), optimized_metrics_index=list(opt_ix), constraint_metrics_index=list(con_ix))
   snap = (pc.values.copy(), pc.value_vars.copy(), pc.failures.copy())
   v = View(dict(tag={}, domain_info=di, points_sampled=pc, metrics_info=mi, task_options=[]))
-  assert (snap[0] == pc.values).all() and (snap[1] == pc.value_vars).all() and (snap[2] == pc.failures).all(), "view modified the request"
+  assert numpy.array_equal(snap[0], pc.values, equal_nan=True) and (snap[1] == pc.value_vars).all() and (snap[2] == pc.failures).all(), "view modified the request"
   return v
 
 
@@ -132,7 +133,7 @@ def run_impl(kind, inp):
     assert (v0 == vals).all() and (f0 == fails).all(), "inputs modified"
     return out
   m = inp["m"]
-  vals = numpy.array(inp["vals"], dtype=float).reshape(-1, m)
+  vals = numpy.array([[float(x) for x in r] for r in inp["vals"]], dtype=float).reshape(-1, m)   # "inf" / "-inf" / "nan": what a failed row may store
   if kind == "multi":
     vars_ = numpy.array(inp["vars"], dtype=float).reshape(-1, m)
     v0, f0 = vals.copy(), fails.copy()
@@ -212,6 +213,24 @@ def gen_vars(rng, n):
   return [rng.choice([0.0, 2.0 ** -40, 2.0 ** -20, 0.25, 1.0, 3.5, float(rng.randint(0, 2 ** 20)), rng.randint(0, 1024) / 1024.0]) for _ in range(n)]
 
 
+# What the rows of FAILED observations store is arbitrary (the client reports "failed" and some numbers come along): ordinary values,
+# powers of two far outside the successes, sentinels (1e30, the largest double), infinities, NaN.  Through the view nothing of it is
+# ever read (C12_view_failed_values_ignored): the failed rows of the preprocessed data hold the scaled lie.  Non-finite numbers are
+# written as the strings "inf" / "-inf" / "nan" (plain JSON; float() reads them back).
+FAILED_STORED = [1e30, -1e30, 1.7976931348623157e308, -1.7976931348623157e308, 2.0 ** 70, -2.0 ** 60, -999999.0, "inf", "-inf", "nan", "nan"]
+
+
+def store_in_failed_rows(rng, vals, fails):
+  """the value matrix in which (in half of the cases with failures) the failed rows store something else, entry by entry"""
+  if not any(fails) or rng.random() < 0.5:
+    return vals
+  return [[(rng.choice(FAILED_STORED) if rng.random() < 0.7 else x) for x in r] if f else list(r) for r, f in zip(vals, fails)]
+
+
+def is_finite_number(x):
+  return not isinstance(x, str) and x == x and abs(x) != float("inf")
+
+
 def gen_case(rng):
   kind = rng.choice(["single", "single", "multi", "view"])
   if kind == "single":
@@ -250,7 +269,7 @@ def gen_case(rng):
       thr.append(cols[k][rng.randrange(n)])      # equal to an observed value
     else:
       thr.append(cols[k][rng.randrange(n)] + rng.choice([-1, 1]) * rng.choice([2.0 ** -28, 0.125, 1.0, 100.0]))
-  return kind, dict(m=m, vals=vals, vars=vars_, fails=fails, objs=objs, opt_ix=opt_ix, con_ix=con_ix, thr=thr)
+  return kind, dict(m=m, vals=store_in_failed_rows(rng, vals, fails), vars=vars_, fails=fails, objs=objs, opt_ix=opt_ix, con_ix=con_ix, thr=thr)
 
 
 def branch_of(nonfail):
@@ -285,10 +304,13 @@ def coq_cases(kind, inp, out):
   res = []
   objs = C.listlit([OBJ_COQ[o] for o in inp["objs"]])
   thr = C.listlit([C.optlit(t, C.qlit) for t in inp["thr"]])
+  # the model runs on the matrix as stored (a finite sentinel is a rational like any other); an infinity or NaN stored in a FAILED row is
+  # not a rational: the case handed to Coq carries 0 there, which by C12_view_failed_values_ignored does not change the model's output
+  vals = [[x if (is_finite_number(x) or not f) else 0 for x in r] for r, f in zip(inp["vals"], inp["fails"])]
   for key, ix in (("opt", inp["opt_ix"]), ("con", inp["con_ix"])):
     if ix:
       o = out[key]
-      res.append(f"CView {C.listlit(ix, C.nlit)} {ql2(inp['vals'])} {ql2(inp['vars'])} {bl(inp['fails'])} {objs} {thr} "
+      res.append(f"CView {C.listlit(ix, C.nlit)} {ql2(vals)} {ql2(inp['vars'])} {bl(inp['fails'])} {objs} {thr} "
                  f"{ql2(o['values'])} {ql(o['lie'])} {ql2(o['vars'])} {C.listlit([C.optlit(t, C.qlit) for t in o['thr']])}")
   return res
 
@@ -319,6 +341,10 @@ def correspondence(ctx):
       dist["arm:" + a] = dist.get("arm:" + a, 0) + 1
     fm = "all" if inp["fails"] and all(inp["fails"]) else ("none" if not any(inp["fails"]) else "some")
     dist["failures:" + fm] = dist.get("failures:" + fm, 0) + 1
+    if kind == "view":
+      for tag in sorted({"view:failed-row-stores:" + ("nan" if x == "nan" else "infinity" if isinstance(x, str) else "sentinel>=2^60" if abs(x) >= 2.0 ** 60 else "ordinary")
+                         for r, f in zip(inp["vals"], inp["fails"]) if f for x in r}):
+        dist[tag] = dist.get(tag, 0) + 1
     h = C.canon_hash([kind, inp])
     if h not in seen and any(a != "BSkip" for a in arms) and len(inp["vals"]) >= 2:
       nontriv += 1
@@ -330,7 +356,8 @@ def correspondence(ctx):
               rule="dyadic value arrays (n<=9, up to 4 metrics) aimed at every constructor arm (regular, both degenerate-width fallbacks, "
                    "half-width just below / above 1e-8, offsets up to 3*2^40, ties, constants incl. 0 and +-1), failure masks none/some/all/"
                    "one success with arbitrary failed entries, objectives minimize/maximize/None, dyadic variances from 0 to 2^20, thresholds "
-                   "None / equal to an observation / off by 2^-28..100, metric index lists in any order through a minimal View; "
+                   "None / equal to an observation / off by 2^-28..100, metric index lists in any order through a minimal View, whose failed rows "
+                   "also store sentinels (1e30, the largest double, 2^70), infinities and NaN; "
                    "non-trivial = at least two rows and at least one success; distinct by hash of the canonical input",
               samples=[dict(kind=k, input=i, impl_output=o) for k, i, o in meta[:3]], distribution=dist, disagreements=dis)
 
@@ -640,7 +667,7 @@ def gen_float_case(rng):
   cut = rng.randint(0, m)
   thr = [None if rng.random() < 0.4 else cols[k][rng.randrange(n)] + rng.choice([0.0, 1.0, -1.0]) * abs(rng.gauss(0, 1)) * max(abs(x) for x in cols[k]) * rng.choice([1e-3, 1.0])
          for k in range(m)]
-  return kind, dict(m=m, vals=vals, vars=vars_, fails=fails, objs=[rng.choice(["minimize", "maximize"]) for _ in range(m)],
+  return kind, dict(m=m, vals=store_in_failed_rows(rng, vals, fails), vars=vars_, fails=fails, objs=[rng.choice(["minimize", "maximize"]) for _ in range(m)],
                     opt_ix=perm[:cut], con_ix=perm[cut:], thr=thr)
 
 
